@@ -110,6 +110,8 @@ def stMqttLeaf (name : String) : Stage :=
 def stTransport : Stage :=
   { name := "Transport", binds := [(.timeout, .tr_timeout), (.reconnect_timeout, .tr_reconnect_timeout)], pops := [], varKw := true }
 
+/-- `MQTTTransport.__init__` names its five parameters, has no `**kwargs`, and calls
+    `super().__init__(gateway, None)` without keywords: nothing is forwarded to `Transport`. -/
 def stMqttTransport : Stage :=
   { name := "MQTTTransport", binds := [(.pub_callback, .tr_pub_callback), (.sub_callback, .tr_sub_callback), (.in_prefix, .tr_in_prefix), (.out_prefix, .tr_out_prefix), (.retain, .tr_retain)], pops := [], varKw := false }
 
@@ -129,9 +131,9 @@ def classDesc : GwClass → ClassDesc
   | .asyncTcp =>
     { name := "AsyncTCPGateway", chain := [stLeaf "AsyncTCPGateway", stBaseGw "BaseAsyncGateway", stBaseTcp, stGateway], transport := [stLeaf "AsyncTransport", stTransport], transportKeys := none, required := [.host], requiredAttrs := [(.host, .gw_host)], documented := [(.port, .gw_tcp_port), (.timeout, .tr_timeout), (.reconnect_timeout, .tr_reconnect_timeout)] ++ commonDocumented }
   | .mqtt =>
-    { name := "MQTTGateway", chain := [stMqttLeaf "MQTTGateway", stBaseGw "BaseSyncGateway", stBaseMqtt, stGateway], transport := [stMqttTransport], transportKeys := some mqttKeys, required := [.pub_callback, .sub_callback], requiredAttrs := [(.pub_callback, .tr_pub_callback), (.sub_callback, .tr_sub_callback)], documented := [(.in_prefix, .tr_in_prefix), (.out_prefix, .tr_out_prefix), (.retain, .tr_retain)] ++ commonDocumented }
+    { name := "MQTTGateway", chain := [stMqttLeaf "MQTTGateway", stBaseGw "BaseSyncGateway", stBaseMqtt, stGateway], transport := [stMqttTransport, stTransport], transportKeys := some mqttKeys, required := [.pub_callback, .sub_callback], requiredAttrs := [(.pub_callback, .tr_pub_callback), (.sub_callback, .tr_sub_callback)], documented := [(.in_prefix, .tr_in_prefix), (.out_prefix, .tr_out_prefix), (.retain, .tr_retain)] ++ commonDocumented }
   | .asyncMqtt =>
-    { name := "AsyncMQTTGateway", chain := [stMqttLeaf "AsyncMQTTGateway", stBaseGw "BaseAsyncGateway", stBaseMqtt, stGateway], transport := [stMqttTransport], transportKeys := some mqttKeys, required := [.pub_callback, .sub_callback], requiredAttrs := [(.pub_callback, .tr_pub_callback), (.sub_callback, .tr_sub_callback)], documented := [(.in_prefix, .tr_in_prefix), (.out_prefix, .tr_out_prefix), (.retain, .tr_retain)] ++ commonDocumented }
+    { name := "AsyncMQTTGateway", chain := [stMqttLeaf "AsyncMQTTGateway", stBaseGw "BaseAsyncGateway", stBaseMqtt, stGateway], transport := [stMqttTransport, stTransport], transportKeys := some mqttKeys, required := [.pub_callback, .sub_callback], requiredAttrs := [(.pub_callback, .tr_pub_callback), (.sub_callback, .tr_sub_callback)], documented := [(.in_prefix, .tr_in_prefix), (.out_prefix, .tr_out_prefix), (.retain, .tr_retain)] ++ commonDocumented }
 
 /-- constructing class `c` with the keyword set `kw` -/
 def construct (c : GwClass) (kw : List Key) : Outcome :=
